@@ -139,6 +139,17 @@ theorem bitarray_sizes (a : WArr) :
     a.getSize = SArr.size (absA a) ∧ a.getSizeInBytes = SArr.sizeInBytes (absA a) := by
   simp [WArr.getSize, WArr.getSizeInBytes, SArr.size, SArr.sizeInBytes, absA_length]
 
+/-- `String()`. -/
+theorem bitarray_toString (a : WArr) (h : InvA a) : a.toStr = .ok (SArr.toStr (absA a)) :=
+  WArr.toStr_refines a h
+
+/-- `ToBytes(bitOffset, array, offset, numBytes)` with all bits and all bytes in range. -/
+theorem bitarray_toBytes (a : WArr) (bitOffset : Nat) (array : List Nat) (offset numBytes : Nat)
+    (h : InvA a) (hbits : bitOffset + 8 * numBytes ≤ a.size) (harr : offset + numBytes ≤ array.length) :
+    a.toBytes bitOffset array offset numBytes =
+      .ok (SArr.toBytes (absA a) bitOffset array offset numBytes) :=
+  WArr.toBytes_refines a bitOffset array offset numBytes h hbits harr
+
 /-! ## BitArray: arbitrary operation sequences -/
 
 /-- the mutating operations of the BitArray API -/
@@ -258,13 +269,17 @@ theorem bitarray_refines_spec (ops : List AOp) : ∀ (a : WArr), InvA a → vali
       (∀ f, a'.getNextSet f = .ok (SArr.nextSet (absA a') f)) ∧
       (∀ f, a'.getNextUnset f = .ok (SArr.nextUnset (absA a') f)) ∧
       (∀ s e v, a'.isRange s e v = SArr.isRange (absA a') s e v) ∧
-      a'.getSize = SArr.size (absA a') ∧ a'.getSizeInBytes = SArr.sizeInBytes (absA a') := by
+      a'.getSize = SArr.size (absA a') ∧ a'.getSizeInBytes = SArr.sizeInBytes (absA a') ∧
+      a'.toStr = .ok (SArr.toStr (absA a')) ∧
+      (∀ bo arr off n, bo + 8 * n ≤ a'.size → off + n ≤ arr.length →
+        a'.toBytes bo arr off n = .ok (SArr.toBytes (absA a') bo arr off n)) := by
   induction ops with
   | nil =>
     intro a h _
     exact ⟨a, rfl, h, rfl, fun i hi => WArr.get_refines a i h hi,
       fun f => WArr.getNextSet_refines a f h, fun f => WArr.getNextUnset_refines a f h,
-      fun s e v => WArr.isRange_refines a s e v h, (bitarray_sizes a).1, (bitarray_sizes a).2⟩
+      fun s e v => WArr.isRange_refines a s e v h, (bitarray_sizes a).1, (bitarray_sizes a).2,
+      WArr.toStr_refines a h, fun bo arr off n h1 h2 => WArr.toBytes_refines a bo arr off n h h1 h2⟩
   | cons op ops ih =>
     intro a h hv
     obtain ⟨hr, hrest⟩ := hv
@@ -349,6 +364,18 @@ theorem bitmatrix_at (m : WMat) (x y : Nat) (h : InvM m) :
 theorem bitmatrix_getRow (m : WMat) (y : Nat) (row : Option WArr) (h : InvM m) (hy : y < m.height)
     (hrow : ∀ r, row = some r → InvA r) :
     RefinesA (m.getRow y row) ((absM m).getRow y (row.map absA)) := WMat.getRow_refines m y row h hy hrow
+
+/-- `ToStringWithLineSeparator(set, unset, sep)` (hence `ToString` and `String`). -/
+theorem bitmatrix_toString (m : WMat) (h : InvM m) (set unset sep : List Nat) :
+    m.toStr set unset sep = .ok ((absM m).toStr set unset sep) := WMat.toStr_refines m h set unset sep
+
+/-- `GetTopLeftOnBit()`: the first set cell in row-major order (needs the padding to be clear). -/
+theorem bitmatrix_topLeftOnBit (m : WMat) (h : InvM m) :
+    m.getTopLeftOnBit = .ok (absM m).topLeftOnBit := WMat.topLeft_refines m h
+
+/-- `GetBottomRightOnBit()`: the last set cell in row-major order. -/
+theorem bitmatrix_bottomRightOnBit (m : WMat) (h : InvM m) :
+    m.getBottomRightOnBit = .ok (absM m).bottomRightOnBit := WMat.bottomRight_refines m h
 
 /-- `GetWidth()` / `GetHeight()` / `GetRowSize()` / `Bounds()`. -/
 theorem bitmatrix_dims (m : WMat) (h : InvM m) :
@@ -456,12 +483,16 @@ theorem bitmatrix_refines_spec (ops : List MOp) : ∀ (m : WMat), InvM m → val
       (∀ x y, m'.get x y = .ok ((absM m').get x y)) ∧
       (∀ x y, m'.atGray x y = .ok ((absM m').atGray x y)) ∧
       (∀ y row, y < m'.height → (∀ r, row = some r → InvA r) →
-        RefinesA (m'.getRow y row) ((absM m').getRow y (row.map absA))) := by
+        RefinesA (m'.getRow y row) ((absM m').getRow y (row.map absA))) ∧
+      m'.getTopLeftOnBit = .ok (absM m').topLeftOnBit ∧
+      m'.getBottomRightOnBit = .ok (absM m').bottomRightOnBit ∧
+      (∀ set unset sep, m'.toStr set unset sep = .ok ((absM m').toStr set unset sep)) := by
   induction ops with
   | nil =>
     intro m h _
     exact ⟨m, rfl, h, rfl, fun x y => WMat.get_refines m x y h, fun x y => bitmatrix_at m x y h,
-      fun y row hy hrow => WMat.getRow_refines m y row h hy hrow⟩
+      fun y row hy hrow => WMat.getRow_refines m y row h hy hrow, WMat.topLeft_refines m h,
+      WMat.bottomRight_refines m h, fun set unset sep => WMat.toStr_refines m h set unset sep⟩
   | cons op ops ih =>
     intro m h hv
     obtain ⟨hr, hrest⟩ := hv
@@ -514,6 +545,13 @@ theorem rotate90_four (m : SMat) (hm : m.WF) : m.rotate90.rotate90.rotate90.rota
   have h2 : m.rotate90.rotate90.WF := SMat.rotate90_WF _ (SMat.rotate90_WF m hm)
   rw [rotate90_rotate90 _ h2, rotate90_rotate90 m hm, rotate180_rotate180]
 
+/-- `ParseStringToBitMatrix(ToString(m), set, unset) = m` on the naive model, for every well-formed
+    non-empty grid and token strings that differ in their first byte and do not start with a line
+    break (e.g. the defaults `"X "` / `"  "`). -/
+theorem parse_toString (m : SMat) (hm : m.WF) (hw : 1 ≤ m.width) (hh : 1 ≤ m.height)
+    (set unset : List Nat) (g : GoodToks set unset) :
+    SMat.parse (m.toStr set unset [10]) set unset = .ok m := parse_toStr m hm hw hh set unset g
+
 /-! ## Non-vacuity: the hypotheses are satisfiable by interesting states -/
 
 example : InvA (WArr.new 33) := (newBitArray_refines 33).1
@@ -528,5 +566,7 @@ example : validA (absA (WArr.new 64)) [.set 63, .reverse, .appendBit true, .flip
   simp [validA, AOp.inRange, AOp.stepS, absA_length, WArr.new, SArr.set, SArr.reverse,
     SArr.appendBit]
 example : SMat.WF ⟨3, 2, [[true, false, true], [false, false, true]]⟩ := by decide
+example : GoodToks [88, 32] [32, 32] :=
+  ⟨88, 32, [32], [32], rfl, rfl, by decide, ⟨by decide, by decide⟩, ⟨by decide, by decide⟩⟩
 
 end Gzx.Properties.C16
